@@ -168,7 +168,8 @@ REGISTRY = {
         "rule": "failing patches with failures in a random subset of their files and hunks (poisoned hunks, missing file, create-over-existing, delete-mismatch, "
                 "misordered), files in sub-directories / without extension / several dots / in a directory that does not exist, reversed patches, threads 1/2/4/16. "
                 "Non-trivial: the failing patch has >= 2 file entries or a file with both applying and failing hunks.",
-        "floor": floors(("reject-files-verified", 500), ("file-with-applying-and-failing-hunks", 50), ("several-files-rejected", 50), ("reject-legitimately-skipped-(no-directory)", 20), ("shape:reject-in-a-directory-created-by-this-run", 20)),
+        "floor": floors(("reject-files-verified", 500), ("file-with-applying-and-failing-hunks", 50), ("several-files-rejected", 50), ("reject-legitimately-skipped-(no-directory)", 20), ("shape:reject-in-a-directory-created-by-this-run", 20),
+                        ("shape:failed-hunk-between-hunks-applied-with-an-offset", 30)),
     },
     "C14": {
         "level_text": "differential over the option lattice: the same workspace pushed with -q and with a random option set; tree, .pc, rejects and exit status compared",
